@@ -168,8 +168,10 @@ def handleJ (j : Json) : Json :=
     -- one connection from the raw request line on: {"op":"serve","line":cps,"hdrfault":bool, + the fields of a "req" event}
     let E := envOfJson j
     let r := reqOfJson j
-    let out := (serve (cfgOfJson j) E (LState.init 0) ((getChars j "line").getD []) ((getBool j "hdrfault").getD false)
-      r.headers r.body).2
+    let out := match getChars j "rest" with
+      | some rest => (serveRaw (cfgOfJson j) E (LState.init 0) ((getChars j "line").getD []) rest r.body).2   -- raw header section
+      | none => (serve (cfgOfJson j) E (LState.init 0) ((getChars j "line").getD []) ((getBool j "hdrfault").getD false)
+          r.headers r.body).2
     Json.mkObj [("out", match out with
       | .silent => Json.arr #["silent"]
       | .bare c => Json.arr #["bare", (c : Nat)]
@@ -177,6 +179,14 @@ def handleJ (j : Json) : Json :=
       | .status rsp => Json.arr #["status", (rsp.status : Nat)]
       | .stdlib c => Json.arr #["stdlib", (c : Nat)]
       | .dropped e => Json.arr #["dropped", e.name])]
+  | some "hdrs" =>
+    Json.mkObj [("out", match parseHeaders ((getChars j "s").getD []) with
+      | none => Json.null
+      | some hs => hdrsJ hs)]
+  | some "date" =>
+    let g (k : String) := (getNat j k).getD 0
+    Json.mkObj [("out", cpsToJson (dateString (g "wd") (g "d") (g "mon") (g "y") (g "hh") (g "mm") (g "ss"))),
+                ("server", cpsToJson (versionString ((getChars j "v").getD []) ((getChars j "sv").getD []) ((getChars j "sys").getD [])))]
   | some "utf8" => Json.mkObj [("out", optToJson cpsToJson (utf8Decode (hexBytes ((getStr j "hex").getD "").toList)))]
   | some "int" => Json.mkObj [("out", optToJson intToJson (pyInt ((getChars j "s").getD [])))]
   | _ =>
